@@ -102,7 +102,7 @@ pub enum RegBase {
 #[derive(Clone, Debug)]
 pub struct OpD {
     pub id: u64,
-    pub cls: char, // v | u | f
+    pub cls: char, // v | u | f | s (forged signature, claims the owner as source) | z (oversize entry)
 }
 #[derive(Clone, Debug)]
 pub enum DContent {
@@ -267,9 +267,26 @@ pub fn op_entry(id: u64) -> Vec<u8> {
 pub fn build_op(reg: u64, op: &OpD) -> RegisterOp {
     let addr = if op.cls == 'f' { reg_address(reg + 1) } else { reg_address(reg) };
     let mut crdt = RegisterCrdt::new(addr);
-    let (_h, _a, crdt_op) = crdt.write(op_entry(op.id), &BTreeSet::new()).expect("crdt write");
-    let signer = if op.cls == 'u' { bls_sk(STRANGER) } else { bls_sk(reg) };
-    RegisterOp::new(addr, crdt_op, &signer)
+    let mut entry = op_entry(op.id);
+    if op.cls == 'z' {
+        entry.resize(2000, b'.'); // larger than MAX_REG_ENTRY_SIZE
+    }
+    let (_h, _a, crdt_op) = crdt.write(entry, &BTreeSet::new()).expect("crdt write");
+    match op.cls {
+        'u' => RegisterOp::new(addr, crdt_op, &bls_sk(STRANGER)),
+        's' => {
+            // source = owner, signature made by a stranger: splice the stranger's signature onto the owner's op
+            let a = rmp_serde::to_vec(&RegisterOp::new(addr, crdt_op.clone(), &bls_sk(reg))).expect("ser op");
+            let b = rmp_serde::to_vec(&RegisterOp::new(addr, crdt_op, &bls_sk(STRANGER))).expect("ser op");
+            let va: serde_json::Value = rmp_serde::from_slice(&a).expect("op as value");
+            let vb: serde_json::Value = rmp_serde::from_slice(&b).expect("op as value");
+            let (aa, bb) = (va.as_array().expect("array"), vb.as_array().expect("array"));
+            let forged_v = serde_json::Value::Array(vec![aa[0].clone(), aa[1].clone(), aa[2].clone(), bb[3].clone()]);
+            let forged = rmp_serde::to_vec(&forged_v).expect("ser forged");
+            rmp_serde::from_slice(&forged).expect("forged op")
+        }
+        _ => RegisterOp::new(addr, crdt_op, &bls_sk(reg)),
+    }
 }
 pub fn build_reg(id: u64, base: &RegBase, ops: &[OpD]) -> SignedRegister {
     let sk = bls_sk(id);
@@ -482,20 +499,29 @@ pub fn describe(key: &RecordKey, rec: &Record) -> String {
         RecordKind::Register => match try_deserialize_record::<SignedRegister>(rec) {
             Ok(r) => {
                 let alt = r.base_register().permissions().can_anyone_write();
-                let mut ids: Vec<u64> = r
+                // owner signature over the base register, checked with bls directly
+                let base_ok = rmp_serde::to_vec(&r)
+                    .ok()
+                    .and_then(|e| rmp_serde::from_slice::<(Register, bls::Signature, serde::de::IgnoredAny)>(&e).ok())
+                    .map(|(reg, sig, _)| reg.bytes().map(|b| reg.owner().verify(&sig, b)).unwrap_or(false))
+                    .unwrap_or(false);
+                let mut ids: Vec<(u64, String)> = r
                     .ops()
                     .iter()
                     .map(|op| {
                         let e = rmp_serde::to_vec(op).unwrap_or_default();
-                        (0..40u64).find(|i| contains_sub(&e, &op_entry(*i))).map(|i| {
-                            // disambiguate verif-op-1 / verif-op-1x
-                            (0..40u64).filter(|j| contains_sub(&e, &op_entry(*j))).max().unwrap_or(i)
-                        }).unwrap_or(999)
+                        let id = (0..10u64).find(|i| contains_sub(&e, &op_entry(*i))).unwrap_or(999);
+                        // a permitted operation: for this register, small enough, and (unless anyone may write)
+                        // from a permitted writer with a valid signature
+                        let ok = op.address() == *r.address()
+                            && e.len() < 1400
+                            && (alt || (r.base_register().permissions().can_write(&op.source()) && op.verify_signature(&op.source()).is_ok()));
+                        (id, format!("{id}{}", if ok { "" } else { "!" }))
                     })
                     .collect();
                 ids.sort();
-                let s: Vec<String> = ids.iter().map(|i| i.to_string()).collect();
-                format!("{}{}", if alt { "A" } else { "R" }, s.join("."))
+                let s: Vec<String> = ids.into_iter().map(|(_, s)| s).collect();
+                format!("{}{}{}", if alt { "A" } else { "R" }, if base_ok { "" } else { "!" }, s.join("."))
             }
             Err(_) => "?reg".into(),
         },
